@@ -62,6 +62,26 @@ func sshSpecial(cc *lab.CliConn, s gen.Service, sc scenario, c int) (reply int) 
 			cs = sc.Force
 		}
 		switch cs {
+		case 8:
+			// a shell whose window is resized more often than any queue of pending channel requests holds (a
+			// tiling window manager does that), then a command, then the client goes away
+			var ch ssh.Channel
+			var rq <-chan *ssh.Request
+			ok := withTimeout(3*time.Second, func() { ch, rq, err = conn.OpenChannel("session", nil) })
+			if !ok || err != nil {
+				return
+			}
+			go ssh.DiscardRequests(rq)
+			withTimeout(2*time.Second, func() { ch.SendRequest("pty-req", true, append(lp("xterm"), make([]byte, 20)...)) })
+			withTimeout(2*time.Second, func() { ch.SendRequest("shell", true, nil) })
+			withTimeout(3*time.Second, func() {
+				for j := 0; j < 40; j++ {
+					ch.SendRequest("window-change", false, []byte{0, 0, 0, byte(80 + j), 0, 0, 0, 24, 0, 0, 0, 0, 0, 0, 0, 0})
+				}
+				ch.Write([]byte("ls\n"))
+			})
+			time.Sleep(50 * time.Millisecond)
+			return
 		case 7:
 			// a shell that is sent a key sequence which never ends (an escape sequence without its final letter,
 			// longer than the line editor's 256-byte buffer); then the client goes away
